@@ -1466,6 +1466,22 @@ def case_witnesses(ctx):
     run_batch(ctx, ("witnesses", 0), cmds, 4)
 
 
+def case_long_command_lines(ctx):
+    """Valid command lines of 500 to 4000 characters (they are echoed in the header of the formula, one long comment line)."""
+    cmds = []
+    for tool in ("cnfgen", "pbgen"):
+        for reps in (60, 100, 124, 125, 130, 200, 400):
+            if tool == "cnfgen":
+                cmds.append({"tool": tool, "argv": ["and", "1", "1"] + ["-T", "none"] * reps, "stdin": "empty", "ops": [], "files": [], "gen": "long"})
+                cmds.append({"tool": tool, "argv": ["-v", "and", "1", "1"] + ["-T", "none"] * reps, "stdin": "empty", "ops": [], "files": [], "gen": "long"})
+        for cols in (100, 240, 330, 500, 1000):
+            cmds.append({"tool": tool, "argv": ["vdw", "4"] + ["2"] * cols, "stdin": "empty", "ops": [], "files": [], "gen": "long"})
+            cmds.append({"tool": tool, "argv": ["-of", "dimacs" if tool == "pbgen" else "opb", "vdw", "3"] + ["2"] * cols, "stdin": "empty", "ops": [],
+                         "files": [], "gen": "long"})
+    ctx.count("long_command_lines", len(cmds))
+    run_batch(ctx, ("long-command-lines", 0), cmds, 2)
+
+
 def case_outside_git_tree(ctx):
     """Real processes started in a directory that is not inside any git work tree (cnfgen/info.py asks git for the version)."""
     oc.selfcheck()
@@ -1765,9 +1781,73 @@ def case_streams(ctx):
         shutil.rmtree(scratch, ignore_errors=True)
 
 
+def case_broken_dependency(ctx):
+    """Real processes in which the optional dot library can be found but fails to import (pydot installed without its own
+    dependency): commands that need dot files end in a clean error, all others work."""
+    import subprocess as sp
+    from .. import REPO
+    from ..refmodels import c06_dimacs
+    oc.selfcheck()
+    scratch = tempfile.mkdtemp(prefix="vmon-c18d-", dir="/tmp")
+    try:
+        fake = os.path.join(scratch, "site")
+        os.mkdir(fake)
+        with open(os.path.join(fake, "pydot.py"), "w") as f:
+            f.write("raise ImportError(\"No module named 'pyparsing'\")\n")
+        dot = os.path.join(scratch, "g.dot")
+        with open(dot, "w") as f:
+            f.write("graph G {\n 1 -- 2;\n 2 -- 3;\n}\n")
+        ddot = os.path.join(scratch, "d.dot")
+        with open(ddot, "w") as f:
+            f.write("digraph G {\n 1 -> 2;\n 2 -> 3;\n}\n")
+        env = dict(os.environ)
+        env["PYTHONPATH"] = fake
+        env["PYTHONPYCACHEPREFIX"] = os.path.join(tempfile.gettempdir(), "vmon-pycache-%d" % os.getuid())
+        env.pop("PYTHONDONTWRITEBYTECODE", None)
+        runs = [("cnfgen", ["-q", "kclique", "2", dot], "error"), ("cnfgen", ["-q", "kclique", "2", "dot", dot], "error"),
+                ("cnfgen", ["-q", "peb", ddot], "error"), ("pbgen", ["-q", "kcolor", "2", dot], "error"),
+                ("cnfgen", ["-q", "kcolor", "2", "complete", "3", "save", os.path.join(scratch, "x.dot")], "error"),
+                ("cnfgen", ["-q", "kcolor", "2", "complete", "3", "save", "dot", os.path.join(scratch, "y.txt")], "error"),
+                ("cnfgen", ["-q", "php", "3", "2"], "formula"), ("cnfgen", ["-q", "kcolor", "2", "complete", "3"], "formula"),
+                ("cnfgen", ["--help-graph"], "help"), ("cnfgen", ["-h"], "help"), ("kthlist2pebbling", ["-q", "-i", ddot], "error")]
+        for tool, argv, expect in runs:
+            code = "import sys; sys.path.insert(0, %r); sys.argv[0] = %r; from cnfgen.clitools.%s import main; main()" % (REPO, tool, tool)
+            try:
+                p = sp.run([sys.executable, "-c", code] + argv, stdin=sp.DEVNULL, capture_output=True, env=env, cwd=REPO, timeout=60)
+            except sp.TimeoutExpired:
+                ctx.problems.append({"kind": "broken-dependency-run-timeout", "case": ctx.case, "traceback": "%s %r" % (tool, argv)})
+                continue
+            out, err = p.stdout.decode("utf-8", "replace"), p.stderr.decode("utf-8", "replace")
+            ctx.count("broken_dependency_runs")
+            label = "%s %s with a dot library that is found but cannot be imported" % (tool, " ".join(t.replace(scratch, "<dir>") for t in argv))
+            if oc.TRACEBACK in err:
+                ctx.violation("%s:broken-dependency:unhandled-exception" % tool, "%s: %r" % (label, err[-300:]))
+            elif p.returncode == 0:
+                if expect == "help":
+                    ok = len(out.strip()) > 40
+                elif tool == "pbgen":
+                    ok = out.lstrip().startswith("* #variable=")
+                else:
+                    try:
+                        c06_dimacs.read(out)
+                        ok = True
+                    except Exception:          # noqa: BLE001
+                        ok = False
+                if not ok:
+                    ctx.violation("%s:broken-dependency:exit-0-without-%s" % (tool, "help-text" if expect == "help" else "complete-formula"),
+                                  "%s: exit status 0 but <stdout> holds %r" % (label, out[:120]), stderr=err[:300])
+            elif expect in ("formula", "help"):
+                ctx.violation("%s:broken-dependency:refuses-a-request-that-needs-no-dot" % tool, "%s: status %r, %r" % (label, p.returncode, err[-200:]))
+            ctx.judged((tool, tuple(argv[:3]), "broken-pydot"), nontrivial=True, sample={"command": label, "status": p.returncode})
+    finally:
+        shutil.rmtree(scratch, ignore_errors=True)
+
+
 def workload(tier, seed):
     quick = tier == "quick"
     step = 150
+    yield "broken_dependency", {}
+    yield "long_command_lines", {}
     yield "terminal", {}
     yield "unseekable", {}
     yield "streams", {}
